@@ -4,6 +4,7 @@ from __future__ import unicode_literals
 
 import abc
 import io
+import itertools
 import typing
 import tarfile
 
@@ -169,7 +170,14 @@ class FilesystemRegistry(AbstractRegistry):
         if not self._recurse and "/" in "{}".format(item):
             raise KeyError(item)  # keys are stems of files located in the root
         files = ("{}.{}".format(item, extension) for extension in self._extensions)
-        for name in files:
+        # a file listed by `__iter__` under another spelling of its extension
+        # (wildcards match case-insensitively on some filesystems) is a key too
+        listed = (
+            f.name
+            for f in self.fs.filterdir("/", files=self._files, exclude_dirs=["*"])
+            if splitext(f.name)[0] == item
+        )
+        for name in itertools.chain(files, listed):
             if self.fs.isfile(name):
                 with self.fs.open(name) as handle:
                     record = CircularRecord(Bio.SeqIO.read(handle, "genbank"))
